@@ -200,3 +200,21 @@ PROPS["C16"] = {
     "assumptions": [],
     "partial": "HeapBytes / Locked containers (nightly) are not covered by this check",
 }
+
+PROPS["C11"] = {
+    "theorems": [
+        {"name": "C11_outputs_are_functions_of_own_interval", "status": "proved", "statement": "for every call sequence each result is output(kind, its own interval of the stream)"},
+        {"name": "C11_intervals_disjoint", "status": "proved", "statement": "the intervals consumed by any call sequence are pairwise disjoint"},
+        {"name": "C11_cursor_advances", "status": "proved", "statement": "the cursor advances by the sum of the documented draw sizes"},
+        {"name": "C11_identity_flow", "status": "proved", "statement": "keys / nonces / headers / salts / seeds are exactly their draw"},
+        {"name": "C11_keypair_secret_is_draw", "status": "proved", "statement": "the secret half of a key pair is its draw"},
+        {"name": "C11_example", "status": "proved", "statement": "non-vacuity by vm_compute"},
+    ],
+    "builds": ["stable"],
+    "rule": "30 randomised entry points (classic keygen/keypair/header/seal/pwhash_str, object gen/seal/init_push/PwHash::hash with two salt lengths, byte-array gen, randombytes_buf / copy_randombytes incl. lengths > 256): "
+            "(a) with hook rng::verif_set_rng feeding a PRNG stream, 2 (thorough 6) shuffled call sequences: each call must draw its documented number of bytes (> 0), consecutively, and return the documented function of exactly those bytes (identity; X25519 base; libsodium's Ed25519 seed keypair) -- sequences also run through the extracted model (correspondence); "
+            "(b) hook off, 384 (thorough 4096) calls per entry point: no repeat, no all-zero value, no constant byte position (false-alarm probability < 2^-100 for values >= 16 bytes) (search)",
+    "modelled": ["the OS generator (rand_core OsRng) is the assumption; Ed25519 seed expansion is compared with libsodium, not modelled here"],
+    "assumptions": ["the operating system's generator returns independent uniformly random bytes on every call"],
+    "partial": "data flow proved; freshness of the source is statistical",
+}
